@@ -653,6 +653,87 @@ def file_case(py, pyi, newline, backup, entry, workdir):
   return res
 
 
+TREE_FIXED = [
+    ("import os\ndef price(x):\n  return x\n", "from fractions import Fraction\ndef price(x: int) -> Fraction: ...\n"),
+    ("def count(n):\n  return n\n", "def count(n: int) -> int: ...\n"),
+    ("v = f()\ndef amount(a, b=1):\n  return a\n", "from decimal import Decimal\nv: Decimal\ndef amount(a: Decimal, b: int = ...) -> Decimal: ...\n"),
+    ("class K:\n  def m(self, q):\n    return q\n", "from typing import Sequence\nclass K:\n  def m(self, q: Sequence[int]) -> Sequence[int]: ...\n"),
+]
+
+
+def tree_case(pairs, order, backup, workdir):
+  """merge_tree over SEVERAL files (a package dir and a sub-package): every file must end up exactly as merge_sources
+  turns it on its own - one file's stub must not influence another file (metamorphic: tree merge = per-file merges).
+  `order` permutes which pair gets which file name (directory listing order decides who is merged first)."""
+  import shutil
+  from pytype.tools.merge_pyi import merge_pyi
+  shutil.rmtree(workdir, ignore_errors=True)
+  src_dir, pyi_dir = os.path.join(workdir, "src"), os.path.join(workdir, "pyi")
+  names = ["a.py", "b.py", os.path.join("sub", "c.py"), os.path.join("sub", "d.py"), "e.py", os.path.join("sub", "f.py")]
+  res = []
+  refs = {}
+  for k, j in enumerate(order):
+    py, pyi = pairs[j]
+    rel = names[k]
+    for base, text, ext in ((src_dir, py, ""), (pyi_dir, pyi, "i")):
+      path = os.path.join(base, rel + ext)
+      os.makedirs(os.path.dirname(path), exist_ok=True)
+      with open(path, "w") as f:
+        f.write(text)
+    if os.sep in rel:
+      # decoy: a same-named stub of ANOTHER module one directory above the stub root (must never be read)
+      with open(os.path.join(workdir, os.path.basename(rel) + "i"), "w") as f:
+        f.write(pairs[order[(k + 1) % len(order)]][1])
+    try:
+      refs[rel] = (py, merge_pyi.merge_sources(py=py, pyi=pyi))
+    except merge_pyi.MergeError:
+      refs[rel] = (py, None)
+  try:
+    changed_files, errors = merge_pyi.merge_tree(py_path=src_dir, pyi_path=pyi_dir, backup=backup)
+  except Exception as e:  # pylint: disable=broad-except
+    return [Finding("file-entry-point-raised", "merge_tree over %d files: %r" % (len(order), e))]
+  err_paths = {os.path.relpath(p, src_dir) for p, _ in errors}
+  for rel, (py, ref) in refs.items():
+    with open(os.path.join(src_dir, rel)) as f:
+      got = f.read()
+    if ref is None:
+      if got != py:
+        res.append(Finding("tree-file-differs-from-merge_sources", "%s: merge_sources raises MergeError but merge_tree rewrote the file" % rel))
+      continue
+    if rel in err_paths:
+      res.append(Finding("tree-file-differs-from-merge_sources", "%s: merge_tree reports an error where merge_sources succeeds" % rel))
+    elif got != ref:
+      # Not by itself a violation of C20 (a tree merge that skips a file still changes annotations only): it is the
+      # correspondence "merge_tree = per-file merge_sources" that no longer holds.  It is a violation when the
+      # written file breaks a clause of the property with respect to ITS OWN stub where merge_sources' output does not.
+      extra = [l for l in got.split("\n") if l not in ref.split("\n")]
+      res.append(Finding("tree-file-differs-from-merge_sources",
+                         "%s merged inside a tree of %d files differs from merge_sources on that file alone (%s); lines only in "
+                         "the tree result: %r" % (rel, len(order), "file left untouched" if got == py else "different merge", extra[:4])))
+      try:
+        compile(got, rel, "exec", dont_inherit=True)
+        pyi_text = open(os.path.join(pyi_dir, rel + "i")).read()
+        fs = {f.kind for f in oracle(py, pyi_text, got)} - {f.kind for f in oracle(py, pyi_text, ref)}
+        for kk in sorted(fs):
+          res.append(Finding("tree-" + kk, "%s: the file written by merge_tree (a tree of %d files) violates the property with "
+                             "respect to its own stub where merge_sources' output does not; lines only in the tree result: %r"
+                             % (rel, len(order), extra[:4])))
+      except (SyntaxError, ValueError) as e:
+        res.append(Finding("file-output-does-not-compile", "%s: %s" % (rel, str(e)[:200])))
+  shutil.rmtree(workdir, ignore_errors=True)
+  return res
+
+
+def _tree_work(job):
+  pairs, order, backup = job
+  workdir = os.path.join(common.BUILD, "c20", "trees", "%d" % os.getpid())
+  try:
+    fs = tree_case(pairs, order, backup, workdir)
+  except Exception as e:  # pylint: disable=broad-except
+    fs = [Finding("file-leg-crashed", repr(e))]
+  return job, fs
+
+
 def _file_work(job):
   py, pyi, newline, backup, entry = job
   workdir = os.path.join(common.BUILD, "c20", "files", "%d" % os.getpid())
@@ -740,9 +821,23 @@ def run(res):
     if not thorough:      # quick: every input under CRLF/merge_files, plus two more random combinations
       combos = [("CRLF", None, "merge_files")] + fr.sample(combos, 2)
     file_jobs += [(py, pyi, nl, bk, en) for nl, bk, en in combos]
+  # multi-file trees: the fixed pairs (stubs importing names their source lacks) mixed with generated pairs, every
+  # rotation of the file-name assignment (directory listing order decides which file is merged first)
+  tree_jobs = []
+  for t in range(12 if thorough else 3):
+    pairs = list(TREE_FIXED) + fr.sample(gen_inputs, min(len(gen_inputs), 2))
+    fr.shuffle(pairs)
+    pairs = pairs[:fr.randint(3, 6)]
+    idx = list(range(len(pairs)))
+    for rot in range(len(idx) if thorough else 2):
+      order = idx[rot:] + idx[:rot]
+      if rot % 2:
+        order = order[::-1]
+      tree_jobs.append((pairs, order, None if (t + rot) % 2 else "bak"))
   with multiprocessing.get_context("fork").Pool(4) as pool:
     done = pool.map(_work, inputs, chunksize=8)
     file_done = pool.map(_file_work, file_jobs, chunksize=4)
+    tree_done = pool.map(_tree_work, tree_jobs, chunksize=1)
   for d in done:
     if d.get("inferred"):
       n_inferred += 1
@@ -816,7 +911,20 @@ def run(res):
     for f in fs:
       reported.setdefault(f.kind, []).append(({"py": py, "pyi": pyi, "name": "file:%s:%s:%s" % (nl, bk, en),
                                                "file": {"newline": nl, "backup": bk, "entry": en}}, f))
-  res.extra["file_leg"] = {"runs": len(file_done), "combinations": file_hist}
+  tree_diff = []
+  for (pairs, order, bk), fs in tree_done:
+    res.count(("tree", tuple(pairs), tuple(order), bk))
+    for f in fs:
+      if f.kind == "tree-file-differs-from-merge_sources":
+        tree_diff.append(f.what)
+        continue
+      reported.setdefault(f.kind, []).append(({"py": "\n# ---- next file ----\n".join(pairs[j][0] for j in order),
+                                               "pyi": "\n# ---- next file ----\n".join(pairs[j][1] for j in order),
+                                               "name": "tree:%d files" % len(order),
+                                               "tree": {"pairs": [list(x) for x in pairs], "order": order, "backup": bk}}, f))
+  res.extra["file_leg"] = {"runs": len(file_done), "combinations": file_hist, "multi_file_trees": len(tree_done)}
+  res.obligation("correspondence:merge_tree = per-file merge_sources (multi-file trees with sub-packages)", not tree_diff,
+                 "%d files differ; first: %s" % (len(tree_diff), tree_diff[0] if tree_diff else ""))
   res.extra["oracle_finding_cases"] = {k: len(v) for k, v in reported.items()}
   # every finding must be explained by a failed hypothesis of the partial theorems: the leak / hoisting
   # fingerprints are only given when the model's monitor fired; a dotted-annotation finding needs a
